@@ -52,9 +52,13 @@ theorem postRecv_ack_idle (m : Mrp) (bc k : Nat) (hr : m.retrans = none) :
 /-! ## The invariant -/
 
 structure Good (a0 : Nat) (s : Sys) (accB accA : List Nat) : Prop where
-  /-- on an unsecured session at most `L + 1` messages have been started -/
-  encB : s.enc = false → s.next ≤ L + 1
-  winB : C04.Inv s.bRx accB
+  /-- the ghost flag is raised on unsecured sessions only -/
+  lateEnc : s.enc = true → s.late = false
+  /-- as long as no copy came in later than the window is wide, B's window - of either kind - is
+  the set-based specification of C04 over the counters it has accepted -/
+  winB : s.late = false → C04.Inv s.bRx accB
+  /-- always (restarts included): the newest counter of B's window is one it accepted -/
+  maxIn : s.bRx.synced = true → s.bRx.max ∈ accB
   /-- (the sender's own window matters only for the liveness statements, stated for secure sessions) -/
   winA : s.enc = true → C04.Inv s.aRx accA
   /-- B's window has accepted exactly the counters of the messages its application has seen -/
@@ -72,16 +76,18 @@ structure Good (a0 : Nat) (s : Sys) (accB accA : List Nat) : Prop where
   fin : ∀ j, j < s.next → s.cur = some j ∨ ∃ b, (j, b) ∈ s.res
   curSome : ∀ i, s.cur = some i → i + 1 = s.next ∧ ∃ r, s.aMrp.retrans = some r ∧ r.ctr = a0 + i ∧ r.count ≤ Consts.mrpMaxTransmissions
   curNone : s.cur = none → s.aMrp.retrans = none
-  /-- in order, at most once: the log (newest first) is strictly decreasing -/
-  sorted : s.app.Pairwise (· > ·)
+  /-- in order, at most once: the log (newest first) is strictly decreasing - until a copy comes in
+  later than the window of an unsecured session is wide (`late`) -/
+  sorted : s.late = false → s.app.Pairwise (· > ·)
   /-- success only if B's stack accepted the message -/
   resOk : ∀ i, (i, true) ∈ s.res → i ∈ s.app
 
 theorem good_init (a0 b0 : Nat) (enc : Bool) (sai : Option Nat) : Good a0 (init a0 b0 enc sai) [] [] := by
   refine
-    { encB := fun _ => Nat.zero_le _, winB := ?_, winA := fun _ => ?_, accApp := rfl, aCtr := rfl, netData := ?_, netAck := ?_, owed := ?_,
+    { lateEnc := fun _ => rfl, winB := fun _ => ?_, maxIn := ?_, winA := fun _ => ?_, accApp := rfl, aCtr := rfl, netData := ?_, netAck := ?_, owed := ?_,
       accALt := ?_, appLt := ?_, done := ?_, fin := ?_, curSome := ?_, curNone := ?_, sorted := ?_, resOk := ?_ }
   · refine ⟨fun _ => rfl, ?_, ?_, ?_⟩ <;> simp [init, RxState.unsynced]
+  · intro h; simp [init, RxState.unsynced] at h
   · refine ⟨fun _ => rfl, ?_, ?_, ?_⟩ <;> simp [init, RxState.unsynced]
   · intro c i h; simp [init] at h
   · intro bc k h; simp [init] at h
@@ -92,32 +98,121 @@ theorem good_init (a0 b0 : Nat) (enc : Bool) (sai : Option Nat) : Good a0 (init 
   · intro j h; simp [init] at h
   · intro i h; simp [init] at h
   · intro _; rfl
-  · simp [init]
+  · intro _; simp [init]
   · intro i h; simp [init] at h
 
 theorem mem_erase_imp {d e : Dg} {l : List Dg} (h : d ∈ l.erase e) : d ∈ l := List.mem_of_mem_erase h
 
-/-- what the window's verdict means under the invariant: a rejected data message was accepted before -/
+/-! ## The receive window, both kinds: what a verdict does to the state -/
+
+/-- a rejected counter leaves the window as it was, and lies at or below its newest one -/
+theorem plain_rejected (rx : RxState) (c : Nat) (enc : Bool) (h : (postRecvPlain rx c enc).2 = false) :
+    (postRecvPlain rx c enc).1 = rx ∧ rx.synced = true ∧ c ≤ rx.max := by
+  cases hs : rx.synced with
+  | false => rw [C04.plain_unsynced rx c enc hs] at h; cases h
+  | true =>
+    rcases Nat.lt_trichotomy c rx.max with hlt | heq | hgt
+    · by_cases hw : rx.max - c ≤ L
+      · rw [C04.plain_win rx c enc hs hlt hw] at h ⊢
+        unfold inWindow at h ⊢
+        split
+        · exact ⟨rfl, rfl, Nat.le_of_lt hlt⟩
+        · rename_i hb; simp [hb] at h
+      · cases enc
+        · have h1 : c ≠ rx.max := by omega
+          have h2 : ¬ c > rx.max := by omega
+          have : postRecvPlain rx c false = ({ rx with max := c, bitmap := 0xffff }, true) := by
+            simp [postRecvPlain, hs, h1, h2, hw]
+          rw [this] at h; cases h
+        · rw [C04.plain_old rx c hs hlt hw]
+          exact ⟨rfl, rfl, Nat.le_of_lt hlt⟩
+    · subst heq
+      rw [C04.plain_eq rx enc hs]
+      exact ⟨rfl, rfl, Nat.le_refl _⟩
+    · rw [C04.plain_fwd rx c enc hs hgt] at h; cases h
+
+/-- an accepted counter: the window is synchronised afterwards and its newest counter is the
+accepted one or the old newest one -/
+theorem plain_accepted (rx : RxState) (c : Nat) (enc : Bool) (h : (postRecvPlain rx c enc).2 = true) :
+    (postRecvPlain rx c enc).1.synced = true ∧
+    ((postRecvPlain rx c enc).1.max = c ∨ (rx.synced = true ∧ (postRecvPlain rx c enc).1.max = rx.max)) := by
+  cases hs : rx.synced with
+  | false => rw [C04.plain_unsynced rx c enc hs]; exact ⟨rfl, Or.inl rfl⟩
+  | true =>
+    rcases Nat.lt_trichotomy c rx.max with hlt | heq | hgt
+    · by_cases hw : rx.max - c ≤ L
+      · rw [C04.plain_win rx c enc hs hlt hw] at h ⊢
+        unfold inWindow at h ⊢
+        split
+        · rename_i hb; simp [hb] at h
+        · exact ⟨hs, Or.inr ⟨rfl, rfl⟩⟩
+      · cases enc
+        · have h1 : c ≠ rx.max := by omega
+          have h2 : ¬ c > rx.max := by omega
+          have : postRecvPlain rx c false = ({ rx with max := c, bitmap := 0xffff }, true) := by
+            simp [postRecvPlain, hs, h1, h2, hw]
+          rw [this]
+          exact ⟨hs, Or.inl rfl⟩
+        · rw [C04.plain_old rx c hs hlt hw] at h; cases h
+    · subst heq
+      rw [C04.plain_eq rx enc hs] at h; cases h
+    · rw [C04.plain_fwd rx c enc hs hgt]
+      unfold forward
+      split <;> exact ⟨hs, Or.inl rfl⟩
+
+/-- the two window kinds decide alike on every counter that is not more than `L` behind the newest
+one (`timelyFor`) -/
+theorem window_timely (rx : RxState) (c : Nat) (enc : Bool) (h : enc = true ∨ timelyFor rx c = true) :
+    window rx c enc = postRecvPlain rx c true := by
+  unfold window
+  rcases h with h | h
+  · rw [h]
+  · unfold timelyFor at h
+    unfold postRecvPlain
+    by_cases h1 : rx.synced = false
+    · simp [h1]
+    · have hs : rx.synced = true := by simpa using h1
+      have hm : rx.max ≤ c + L := by simpa [hs] using h
+      by_cases h2 : c = rx.max
+      · simp [h1, h2]
+      · by_cases h3 : c > rx.max
+        · simp [h1, h2, h3]
+        · have : rx.max - c ≤ L := by omega
+          simp [h1, h2, h3, this]
+
+/-- the ghost flag stays down: it was down and this copy is timely (or the session is secure) -/
+theorem late_false {s : Sys} {c : Nat} (h : (s.late || !(s.enc || timelyFor s.bRx c)) = false) :
+    s.late = false ∧ window s.bRx c s.enc = postRecvPlain s.bRx c true := by
+  have h1 : s.late = false := by
+    cases hl : s.late with
+    | false => rfl
+    | true => rw [hl] at h; simp at h
+  refine ⟨h1, window_timely _ _ _ ?_⟩
+  rw [h1] at h
+  cases he : s.enc with
+  | true => exact Or.inl rfl
+  | false =>
+    right
+    rw [he] at h
+    simpa using h
+
+/-- what the window's verdict means under the invariant - on both session kinds, restarts or not:
+a rejected data message was accepted before -/
 theorem rejected_was_accepted {a0 : Nat} {s : Sys} {accB accA : List Nat} (g : Good a0 s accB accA)
-    (c i : Nat) (hc : c = a0 + i) (hi : i < s.next) (hrej : specAccept accB c = false) : c ∈ accB := by
-  by_cases hin : c ∈ accB
-  · exact hin
-  · exfalso
-    -- then `i` is the last started message and everything accepted is older
-    have hiapp : i ∉ s.app := by
-      intro h
-      apply hin
-      rw [g.accApp, hc]
-      exact List.mem_map.2 ⟨i, h, rfl⟩
-    have hlast : ¬ i + 1 < s.next := fun h => hiapp (g.done i h)
-    have hall : ∀ a ∈ accB, a ≤ c + 16 := by
-      intro a ha
-      rw [g.accApp] at ha
-      obtain ⟨j, hj, rfl⟩ := List.mem_map.1 ha
-      have := g.appLt j hj
-      omega
-    rw [C04.spec_true accB c hin hall] at hrej
-    cases hrej
+    (c i : Nat) (hc : c = a0 + i) (hi : i < s.next) (hrej : (window s.bRx c s.enc).2 = false) : c ∈ accB := by
+  by_cases hlast : i + 1 < s.next
+  · rw [g.accApp, hc]
+    exact List.mem_map.2 ⟨i, g.done i hlast, rfl⟩
+  · -- the last started message: nothing newer exists, so "rejected" means "is the newest accepted"
+    obtain ⟨_, hs, hle⟩ := plain_rejected s.bRx c s.enc hrej
+    have hmax := g.maxIn hs
+    have hmax' := hmax
+    rw [g.accApp] at hmax'
+    obtain ⟨j, hj, hje⟩ := List.mem_map.1 hmax'
+    have hjn := g.appLt j hj
+    have : c = s.bRx.max := by omega
+    rw [this]
+    exact hmax
 
 /-- a newly accepted data message is the last started one, newer than everything in the log -/
 theorem accepted_is_newest {a0 : Nat} {s : Sys} {accB accA : List Nat} (g : Good a0 s accB accA)
@@ -154,32 +249,16 @@ theorem good_send {a0 : Nat} {s s' : Sys} {accB accA : List Nat} (g : Good a0 s 
   · rename_i hguard
     simp only [Bool.or_eq_true, Bool.not_eq_true', not_or, Bool.not_eq_true, Option.isSome_eq_false_iff,
       Option.isNone_iff_eq_none] at hguard
-    obtain ⟨⟨⟨hcur, hok⟩, hrt⟩, hbound⟩ := hguard
-    have hbound : s.enc = true ∨ s.next ≤ L := by
-      cases he : s.enc with
-      | true => exact Or.inl rfl
-      | false =>
-        right
-        have : (s.enc || decide (s.next ≤ L)) = true := by
-          cases hb : (s.enc || decide (s.next ≤ L)) with
-          | true => rfl
-          | false => exact absurd hb hbound
-        simpa [he] using this
+    obtain ⟨⟨hcur, hok⟩, hrt⟩ := hguard
     have hok : s.allOk = true := by simpa using hok
     have hp := preSend_first s.aMrp s.aCtr none s.sai hrt
     simp only [hp.2] at h
     cases h
     refine
-      { encB := ?_, winB := g.winB, winA := g.winA, accApp := g.accApp, aCtr := ?_, netData := ?_,
+      { lateEnc := g.lateEnc, maxIn := g.maxIn, winB := g.winB, winA := g.winA, accApp := g.accApp, aCtr := ?_, netData := ?_,
         netAck := fun bc k hm => g.netAck bc k (by simpa using hm), owed := g.owed, accALt := g.accALt,
         appLt := ?_, done := ?_, fin := ?_,
         curSome := ?_, curNone := ?_, sorted := g.sorted, resOk := g.resOk }
-    · intro he
-      have he' : s.enc = false := he
-      show s.next + 1 ≤ L + 1
-      rcases hbound with h1 | h1
-      · rw [he'] at h1; cases h1
-      · omega
     · show s.aCtr + 1 = a0 + (s.next + 1)
       rw [g.aCtr]; omega
     · intro c i hm
@@ -236,7 +315,7 @@ theorem good_resend {a0 : Nat} {s s' : Sys} {accB accA : List Nat} (g : Good a0 
       · cases h
       · cases h
         refine
-          { encB := g.encB, winB := g.winB, winA := g.winA, accApp := g.accApp, aCtr := g.aCtr, netData := ?_,
+          { lateEnc := g.lateEnc, maxIn := g.maxIn, winB := g.winB, winA := g.winA, accApp := g.accApp, aCtr := g.aCtr, netData := ?_,
             netAck := fun bc k hm => g.netAck bc k (by simpa using hm), owed := g.owed, accALt := g.accALt,
             appLt := g.appLt, done := g.done, fin := g.fin,
             curSome := ?_, curNone := ?_, sorted := g.sorted, resOk := g.resOk }
@@ -261,7 +340,7 @@ theorem good_resend {a0 : Nat} {s s' : Sys} {accB accA : List Nat} (g : Good a0 
       split at h
       · cases h
         refine
-          { encB := g.encB, winB := g.winB, winA := g.winA, accApp := g.accApp, aCtr := g.aCtr, netData := g.netData,
+          { lateEnc := g.lateEnc, maxIn := g.maxIn, winB := g.winB, winA := g.winA, accApp := g.accApp, aCtr := g.aCtr, netData := g.netData,
             netAck := g.netAck, owed := g.owed, accALt := g.accALt, appLt := g.appLt, done := g.done, fin := ?_,
             curSome := ?_, curNone := ?_, sorted := g.sorted, resOk := ?_ }
         · intro j hj
@@ -285,7 +364,7 @@ theorem good_resend {a0 : Nat} {s s' : Sys} {accB accA : List Nat} (g : Good a0 
 
 theorem good_net_sub {a0 : Nat} {s : Sys} {accB accA : List Nat} (g : Good a0 s accB accA) (net' : List Dg)
     (hsub : ∀ d, d ∈ net' → d ∈ s.net) : Good a0 { s with net := net' } accB accA :=
-  { encB := g.encB, winB := g.winB, winA := g.winA, accApp := g.accApp, aCtr := g.aCtr,
+  { lateEnc := g.lateEnc, maxIn := g.maxIn, winB := g.winB, winA := g.winA, accApp := g.accApp, aCtr := g.aCtr,
     netData := fun c i hm => g.netData c i (hsub _ hm), netAck := fun bc k hm => g.netAck bc k (hsub _ hm),
     owed := g.owed, accALt := g.accALt, appLt := g.appLt, done := g.done, fin := g.fin, curSome := g.curSome,
     curNone := g.curNone, sorted := g.sorted, resOk := g.resOk }
@@ -305,7 +384,7 @@ theorem good_ackB {a0 : Nat} {s s' : Sys} {accB accA : List Nat} (g : Good a0 s 
       simp only [hack, Option.map_some] at h
       cases h
       refine
-        { encB := g.encB, winB := g.winB, winA := g.winA, accApp := g.accApp, aCtr := g.aCtr, netData := ?_,
+        { lateEnc := g.lateEnc, maxIn := g.maxIn, winB := g.winB, winA := g.winA, accApp := g.accApp, aCtr := g.aCtr, netData := ?_,
           netAck := ?_, owed := ?_, accALt := ?_, appLt := g.appLt, done := g.done, fin := g.fin,
           curSome := g.curSome, curNone := g.curNone, sorted := g.sorted, resOk := g.resOk }
       · intro c i hm
@@ -328,12 +407,14 @@ theorem good_ackB {a0 : Nat} {s s' : Sys} {accB accA : List Nat} (g : Good a0 s 
 
 
 theorem recvData_rej (s : Sys) (c i : Nat) (hw : (window s.bRx c s.enc).2 = false) :
-    s.recvData c i = { s with bRx := (window s.bRx c s.enc).1, bCtr := s.bCtr + 1, net := Dg.ack s.bCtr c :: s.net } := by
+    s.recvData c i = { s with bRx := (window s.bRx c s.enc).1, bCtr := s.bCtr + 1, net := Dg.ack s.bCtr c :: s.net,
+                              late := s.late || !(s.enc || timelyFor s.bRx c) } := by
   unfold Sys.recvData
   simp [hw]
 
 theorem recvData_acc (s : Sys) (c i : Nat) (hw : (window s.bRx c s.enc).2 = true) :
-    s.recvData c i = { s with bRx := (window s.bRx c s.enc).1, bMrp := (s.bMrp.postRecv c none true 0).1, app := i :: s.app } := by
+    s.recvData c i = { s with bRx := (window s.bRx c s.enc).1, bMrp := (s.bMrp.postRecv c none true 0).1, app := i :: s.app,
+                              late := s.late || !(s.enc || timelyFor s.bRx c) } := by
   unfold Sys.recvData
   simp [hw]
 
@@ -363,49 +444,25 @@ theorem afterAck_done (s : Sys) (rx : RxState) (p : Mrp × Option Err) (i : Nat)
   unfold Sys.afterAck
   simp [h2, hc, hr]
 
-/-- the window of an unsecured session decides like the secure one for everything the sender can
-have sent so far (at most `L + 1` messages) -/
-theorem window_data_eq {a0 : Nat} {s : Sys} {accB accA : List Nat} (g : Good a0 s accB accA) (c i : Nat)
-    (hc : c = a0 + i) : window s.bRx c s.enc = postRecvPlain s.bRx c true := by
-  unfold window
-  cases he : s.enc with
-  | true => rfl
-  | false =>
-    unfold postRecvPlain
-    by_cases h1 : s.bRx.synced = false
-    · simp [h1]
-    · have hs : s.bRx.synced = true := by simpa using h1
-      have hmax := g.winB.maxIn hs
-      rw [g.accApp] at hmax
-      obtain ⟨j, hj, hje⟩ := List.mem_map.1 hmax
-      have hjn := g.appLt j hj
-      have hb := g.encB he
-      have hle : s.bRx.max - c ≤ L := by omega
-      by_cases h2 : c = s.bRx.max
-      · simp [h1, h2]
-      · by_cases h3 : c > s.bRx.max
-        · simp [h1, h2, h3]
-        · simp [h1, h2, h3, hle]
-
 /-- B's stack takes a data message that is in flight -/
 theorem good_recvData {a0 : Nat} {s : Sys} {accB accA : List Nat} (g : Good a0 s accB accA) (c i : Nat)
     (hc : c = a0 + i) (hi : i < s.next) :
     ∃ accB', Good a0 (s.recvData c i) accB' accA := by
-  have href := C04.step_refines s.bRx accB c g.winB
-  have heq := window_data_eq g c i hc
-  cases hw : (postRecvPlain s.bRx c true).2 with
+  have hle' : ∀ he : s.enc = true, (s.late || !(s.enc || timelyFor s.bRx c)) = false := by
+    intro he; rw [g.lateEnc he, he]; rfl
+  cases hw : (window s.bRx c s.enc).2 with
   | false =>
     -- rejected by the window: acknowledged afresh
-    rw [hw] at href
-    simp only [Bool.false_eq_true, ↓reduceIte] at href
-    have hin : c ∈ accB := rejected_was_accepted g c i hc hi href.1.symm
+    have hin : c ∈ accB := rejected_was_accepted g c i hc hi hw
+    have hsame : (window s.bRx c s.enc).1 = s.bRx := (plain_rejected s.bRx c s.enc hw).1
     refine ⟨accB, ?_⟩
-    rw [recvData_rej s c i (by rw [heq]; exact hw), heq]
+    rw [recvData_rej s c i hw, hsame]
     refine
-      { encB := g.encB, winB := href.2, winA := g.winA, accApp := g.accApp, aCtr := g.aCtr,
+      { lateEnc := hle', winB := fun hl => g.winB (late_false hl).1, maxIn := g.maxIn, winA := g.winA,
+        accApp := g.accApp, aCtr := g.aCtr,
         netData := fun c' i' hm => g.netData c' i' (by simpa using hm), netAck := ?_, owed := g.owed,
         accALt := fun he b hb => Nat.lt_succ_of_lt (g.accALt he b hb), appLt := g.appLt, done := g.done, fin := g.fin,
-        curSome := g.curSome, curNone := g.curNone, sorted := g.sorted, resOk := g.resOk }
+        curSome := g.curSome, curNone := g.curNone, sorted := fun hl => g.sorted (late_false hl).1, resOk := g.resOk }
     intro bc k hm
     simp only [List.mem_cons, Dg.ack.injEq] at hm
     rcases hm with ⟨rfl, rfl⟩ | hm
@@ -413,16 +470,31 @@ theorem good_recvData {a0 : Nat} {s : Sys} {accB accA : List Nat} (g : Good a0 s
     · have := g.netAck bc k hm
       exact ⟨this.1, Nat.lt_succ_of_lt this.2⟩
   | true =>
-    rw [hw] at href
-    simp only [↓reduceIte] at href
-    have hnew := accepted_is_newest g c i hc hi href.1.symm
+    have hacc := plain_accepted s.bRx c s.enc hw
     refine ⟨c :: accB, ?_⟩
-    rw [recvData_acc s c i (by rw [heq]; exact hw), heq]
+    rw [recvData_acc s c i hw]
+    -- while the flag is down the window is the set-based specification: the accepted message is new
+    have htimely : ∀ hl : (s.late || !(s.enc || timelyFor s.bRx c)) = false,
+        C04.Inv (window s.bRx c s.enc).1 (c :: accB) ∧ (i ∉ s.app ∧ ∀ j ∈ s.app, j < i) := by
+      intro hl
+      obtain ⟨hl0, heq⟩ := late_false hl
+      have href := C04.step_refines s.bRx accB c (g.winB hl0)
+      rw [heq] at hw
+      rw [hw] at href
+      simp only [↓reduceIte] at href
+      rw [heq]
+      exact ⟨href.2, accepted_is_newest g c i hc hi href.1.symm⟩
     refine
-      { encB := g.encB, winB := href.2, winA := g.winA, accApp := ?_, aCtr := g.aCtr, netData := g.netData,
+      { lateEnc := hle', winB := fun hl => (htimely hl).1, maxIn := ?_, winA := g.winA, accApp := ?_, aCtr := g.aCtr,
+        netData := g.netData,
         netAck := fun bc k hm => ⟨List.mem_cons_of_mem _ (g.netAck bc k hm).1, (g.netAck bc k hm).2⟩, owed := ?_,
         accALt := g.accALt, appLt := ?_, done := ?_, fin := g.fin,
         curSome := g.curSome, curNone := g.curNone, sorted := ?_, resOk := ?_ }
+    · intro _
+      show (window s.bRx c s.enc).1.max ∈ c :: accB
+      rcases hacc.2 with h | ⟨hs, h⟩
+      · unfold window; rw [h]; exact List.mem_cons_self
+      · unfold window; rw [h]; exact List.mem_cons_of_mem _ (g.maxIn hs)
     · show c :: accB = (i :: s.app).map (a0 + ·)
       rw [List.map_cons, ← g.accApp, hc]
     · intro a ha
@@ -438,8 +510,9 @@ theorem good_recvData {a0 : Nat} {s : Sys} {accB accA : List Nat} (g : Good a0 s
       · exact g.appLt j h
     · intro j hj
       exact List.mem_cons_of_mem _ (g.done j hj)
-    · show (i :: s.app).Pairwise (· > ·)
-      exact List.pairwise_cons.2 ⟨fun j hj => hnew.2 j hj, g.sorted⟩
+    · intro hl
+      show (i :: s.app).Pairwise (· > ·)
+      exact List.pairwise_cons.2 ⟨fun j hj => (htimely hl).2.2 j hj, g.sorted (late_false hl).1⟩
     · intro j hj
       exact List.mem_cons_of_mem _ (g.resOk j hj)
 
@@ -455,7 +528,7 @@ theorem good_afterAck {a0 : Nat} {s : Sys} {accB accA accA' : List Nat} (g : Goo
     have hp := postRecv_ack_idle s.aMrp bc k hrt
     rw [afterAck_idle s _ _ hp.1 hcur]
     exact
-      { encB := g.encB, winB := g.winB, winA := hwin, accApp := g.accApp, aCtr := g.aCtr, netData := g.netData,
+      { lateEnc := g.lateEnc, maxIn := g.maxIn, winB := g.winB, winA := hwin, accApp := g.accApp, aCtr := g.aCtr, netData := g.netData,
         netAck := g.netAck, owed := g.owed, accALt := hlt, appLt := g.appLt, done := g.done, fin := g.fin,
         curSome := fun i hi => (by
           have : s.cur = some i := hi
@@ -474,7 +547,7 @@ theorem good_afterAck {a0 : Nat} {s : Sys} {accB accA accA' : List Nat} (g : Goo
         have : j = i := by omega
         exact this ▸ hj
       refine
-        { encB := g.encB, winB := g.winB, winA := hwin, accApp := g.accApp, aCtr := g.aCtr, netData := g.netData,
+        { lateEnc := g.lateEnc, maxIn := g.maxIn, winB := g.winB, winA := hwin, accApp := g.accApp, aCtr := g.aCtr, netData := g.netData,
           netAck := g.netAck, owed := g.owed, accALt := hlt, appLt := g.appLt, done := g.done, fin := ?_,
           curSome := ?_, curNone := fun _ => h1.2, sorted := g.sorted, resOk := ?_ }
       · intro j hj
@@ -497,7 +570,7 @@ theorem good_afterAck {a0 : Nat} {s : Sys} {accB accA accA' : List Nat} (g : Goo
       rw [afterAck_err s _ _ .duplicate (by rw [h2])]
       rw [h2]
       exact
-        { encB := g.encB, winB := g.winB, winA := hwin, accApp := g.accApp, aCtr := g.aCtr, netData := g.netData,
+        { lateEnc := g.lateEnc, maxIn := g.maxIn, winB := g.winB, winA := hwin, accApp := g.accApp, aCtr := g.aCtr, netData := g.netData,
           netAck := g.netAck, owed := g.owed, accALt := hlt, appLt := g.appLt, done := g.done, fin := g.fin,
           curSome := g.curSome, curNone := g.curNone, sorted := g.sorted, resOk := g.resOk }
 
@@ -514,7 +587,7 @@ theorem good_recvAck {a0 : Nat} {s : Sys} {accB accA : List Nat} (g : Good a0 s 
       refine ⟨accA, ?_⟩
       rw [recvAck_rej s bc k hw]
       exact
-        { encB := g.encB, winB := g.winB, winA := fun h => hno _ h, accApp := g.accApp, aCtr := g.aCtr,
+        { lateEnc := g.lateEnc, maxIn := g.maxIn, winB := g.winB, winA := fun h => hno _ h, accApp := g.accApp, aCtr := g.aCtr,
           netData := g.netData, netAck := g.netAck, owed := g.owed, accALt := fun h => hno _ h, appLt := g.appLt,
           done := g.done, fin := g.fin, curSome := g.curSome, curNone := g.curNone, sorted := g.sorted,
           resOk := g.resOk }
@@ -533,7 +606,7 @@ theorem good_recvAck {a0 : Nat} {s : Sys} {accB accA : List Nat} (g : Good a0 s 
       refine ⟨accA, ?_⟩
       rw [recvAck_rej s bc k (by rw [heq]; exact hw), heq]
       exact
-        { encB := g.encB, winB := g.winB, winA := fun _ => href.2, accApp := g.accApp, aCtr := g.aCtr,
+        { lateEnc := g.lateEnc, maxIn := g.maxIn, winB := g.winB, winA := fun _ => href.2, accApp := g.accApp, aCtr := g.aCtr,
           netData := g.netData, netAck := g.netAck, owed := g.owed, accALt := g.accALt, appLt := g.appLt,
           done := g.done, fin := g.fin, curSome := g.curSome, curNone := g.curNone, sorted := g.sorted,
           resOk := g.resOk }
